@@ -50,6 +50,8 @@ def find_visitors(ctx):
 
 def run(ctx, rep):
     ix, T = ctx.ix, ctx.typer
+    from .common import check_recursion_guard
+    check_recursion_guard(ctx, rep, "C04.10", ['jaqalpaq.core.algorithm.expand_macros.expand_macros'], ("jaqalpaq.emulator.pygsti", "jaqalpaq.ipc", "jaqalpaq._cli", "jaqalpaq.qsyntax"))
     from .common import check_alias_name_kept
     check_alias_name_kept(ctx, rep, "C04.9", ("jaqalpaq.core.algorithm.expand_macros",))
     from .common import check_macro_argument_binding
